@@ -370,12 +370,13 @@ func runC20(c *Ctx) {
 					all := true
 					for _, e := range ph.Edges {
 						es := A.Sym.Of(e)
-						if !(vu != nil && strings.Contains(es, pa.CalleeName(vu)+"(")) {
+						// each merged value on its own merits: URL normalisation, a constant, a projection
+						if !(vu != nil && strings.Contains(es, pa.CalleeName(vu)+"(")) && !isConstStr(e) && isCallTo(e, "strings.Join") == nil && !constBuilt(e) {
 							all = false
 						}
 					}
 					if all {
-						R.OK("C20.R2", key, cons, pos, "validURL's / the rewriter's result")
+						R.OK("C20.R2", key, cons, pos, "validURL's / the rewriter's result, or a constant (merged)")
 						continue
 					}
 				}
